@@ -18,6 +18,7 @@ type Workload struct {
 	Batches  []int     `json:"batches"`
 	PageSize int       `json:"page_size"`
 	Codec    int       `json:"codec"`
+	Pending  int       `json:"pending_at_close,omitempty"` // C09 only: records added after the last Write, before Close
 }
 
 type wlCfg struct {
@@ -25,6 +26,9 @@ type wlCfg struct {
 	maxRecs  int
 	gen      vt.GenCfg
 	codecs   []int
+	// bigPct: percentage of cases that are "big": either one page of 2000..5000 records (page bodies beyond 32/64 KiB)
+	// or 300..600 row groups of 1..2 records (footer beyond 64 KiB)
+	bigPct int
 }
 
 var pageSizes = []int{1, 2, 3, 4, 5, 6, 7, 8, 9, 10, 11, 12, 13, 14, 15, 16, 17, 23, 24, 25, 31, 32, 33, 63, 64, 65, 100, 1000}
@@ -39,6 +43,38 @@ func genWorkload(t *rapid.T, cfg wlCfg) *Workload {
 	}
 	w.Codec = rapid.SampledFrom(codecs).Draw(t, "codec")
 	w.PageSize = rapid.SampledFrom(pageSizes).Draw(t, "pageSize")
+	// (rapid biases integer draws towards the ends of a range; a window in the middle is hit with about the nominal probability)
+	if b := rapid.IntRange(0, 99).Draw(t, "big?"); cfg.bigPct > 0 && b >= 50 && b < 50+cfg.bigPct {
+		g := cfg.gen
+		g.LongList, g.MaxList, g.LongStr, g.MaxStr = 0, 2, 0, 40
+		if fx.Has("big") {
+			w.Fixture = "big"
+			f = fx.Get("big")
+		}
+		if rapid.Bool().Draw(t, "bigKind") {
+			// one big page
+			n := rapid.IntRange(2000, 4000).Draw(t, "bigN")
+			w.PageSize = 10000
+			for i := 0; i < n; i++ {
+				w.Records = append(w.Records, vt.GenRecord(t, f.Root, g))
+			}
+			w.Batches = []int{n}
+			if rapid.Bool().Draw(t, "bigTwoGroups") {
+				w.Batches = []int{n - 7, 7}
+			}
+		} else {
+			// very many row groups
+			n := rapid.IntRange(300, 600).Draw(t, "manyGroups")
+			for i := 0; i < n; i++ {
+				k := rapid.IntRange(1, 2).Draw(t, "k")
+				for j := 0; j < k; j++ {
+					w.Records = append(w.Records, vt.GenRecord(t, f.Root, g))
+				}
+				w.Batches = append(w.Batches, k)
+			}
+		}
+		return w
+	}
 	var n int
 	switch rapid.IntRange(0, 9).Draw(t, "sizeClass") {
 	case 0, 1, 2, 3, 4, 5:
@@ -93,6 +129,12 @@ func (w *Workload) labels() []string {
 	}
 	if len(w.Records) == 0 {
 		l = append(l, "empty")
+	}
+	if len(w.Batches) >= 300 {
+		l = append(l, "big:>=300-row-groups")
+	}
+	if w.PageSize == 10000 {
+		l = append(l, "big:page-of-2000..5000-records")
 	}
 	return l
 }
